@@ -224,7 +224,7 @@ func (c Collection) Collection() ItemCollection {
 // Append adds an element to a Collection
 func (c *Collection) Append(it ...Item) error {
 	for _, ob := range it {
-		if c.Items.Contains(ob) {
+		if IsNil(ob) || c.Items.Contains(ob) {
 			continue
 		}
 		c.Items = append(c.Items, ob)
